@@ -184,6 +184,23 @@ CHECKS['C01'] = dict(
     ],
 )
 
+GARBAGE_LD = ['-Wl,--wrap=posix_memalign', '-Wl,--wrap=free']
+CHECKS['C03'] = dict(
+    level='exploration',
+    rule='generated API histories (3-line productive prologue + 0..100 generated commands over AllocCache/InitCache/ReleaseCache/AllocDataset/InitDataset(16 threads)/ReleaseDataset/CreateVm/DestroyVm/'
+         'SetCache/SetDataset/SetV2/ClearV2/Hash/BatchFirst/Next/Last/Churn; operands are indices resolved modulo the live objects; a command whose documented precondition does not hold is skipped and counted) '
+         'over 3 generated keys (one empty, one > 60 bytes), 6 generated inputs, all light VM classes (+ fast VMs in the dataset histories), both versions, under an interposed allocator that pre-fills every '
+         'library block with a generated pattern, poisons and quarantines freed blocks and hands big blocks (scratchpad, cache, dataset) out again at the same address. Oracle: every digest == digest of a fresh cache + fresh VM; '
+         'a batch returns, in order, the single-call digests. Non-trivial: history with a compared hash preceded on the same VM/cache by another input, a re-key + rebind, a bind to another cache object, a same-key '
+         'different-object rebind, release-while-bound then rebind, a v1<->v2 switch, or a batch step',
+    assumptions=COMMON_ASSUME + ['the documented contract as encoded in the harness preconditions (randomx.h): set_cache after every re-key, no interleaving inside a batch, objects alive and initialised',
+                                 'any conforming allocator may return a freed address again and leaves fresh memory indeterminate'],
+    stages=[
+        dict(name='history', harness=H('c03', ['harness/c03_history.cpp'], ldflags=GARBAGE_LD),
+             plan={'quick': 'history=48:60,history_ds=2:30', 'thorough': 'history=1600:100,history_ds=32:40'}, env={'VERIF_CASE_TIMEOUT': '600'}),
+    ],
+)
+
 C02_AUX = os.path.join(os.path.dirname(os.path.abspath(__file__)), 'build', 'run', 'c02-digests')
 
 
